@@ -478,8 +478,13 @@ theorem compile_self_tail_call (isFn : Nat → Bool) (c : Ctx) (h : String) (arg
     (hn : (c.tail && h == c.funcname) = true) :
     compile isFn c (.call (.sym h) args) = (do
       let gs ← get
-      let code ← compileCallArgs isFn { c with tail := false } ((c.known.lookup h).bind (fun t => gs.fns[t]?)) 0 args
-      pure (code ++ [.prepareCall h args.length] ++ List.replicate (c.scopes + 1) .removeScope ++ [.goto 0], c.tail)) := by
+      -- after fix C04-04 a self call with the wrong number of arguments is an ordinary call
+      if (match (c.known.lookup h).bind (fun t => gs.fns[t]?) with
+          | some fo => if fo.varargs then decide (fo.nargs ≤ args.length) else args.length == fo.nargs
+          | none => true) then do
+        let code ← compileCallArgs isFn { c with tail := false } ((c.known.lookup h).bind (fun t => gs.fns[t]?)) 0 args
+        pure (code ++ [.prepareCall h args.length] ++ List.replicate (c.scopes + 1) .removeScope ++ [.goto 0], c.tail)
+      else pure ([.callExpr (.sym h) args], c.tail)) := by
   simp only [compile, hn]; rfl
 
 theorem compileCallArgs_lazy_position (isFn : Nat → Bool) (c : Ctx) (f : FnObj) (i : Nat) (e : Expr) (es : List Expr)
@@ -653,5 +658,44 @@ theorem prepareArgs_at_strict_position (fuel : Nat) (f : Option FnObj) (i : Nat)
             prepPlan (fuel + 1) f (i + pre.length + 1) post) s := by
   rw [prepareArgs_eq_plan, prepPlan_append, List.length_cons]
   simp only [runM_bind, prepPlan_cons, prepOne, h, Bool.false_eq_true, if_false]
+
+/-! ## lookups inside a forced expression -/
+
+/-- `LexicalLookupSymbol` as a function of the two things it reads besides the tables: the
+scope stack and the current function. -/
+def lexLookupAt (s : St) (lin : List (Option Nat)) (cur : Nat) (x : String) : Option (Nat × Val) :=
+  match lookupUntilFn s x false lin with
+  | some r => some r
+  | none =>
+    let f := fnOf s cur
+    let second :=
+      if f.parent.isSome then lookupChain s x (s.fns.length + 1) cur
+      else lookupUntilFn s x false f.closing
+    match second with
+    | some r => some r
+    | none => lookupUntilFn s x true lin
+
+theorem lexLookup_eq_at (s : St) (x : String) : lexLookup s x = lexLookupAt s s.linear s.curfunc x := rfl
+
+theorem force_lookup_eq_callsite (sF : St) (K : List (Option Nat)) (f c : Nat) (x : String)
+    (hcl : (fnOf sF f).closing = K) (hpar : (fnOf sF f).parent = some c)
+    (hfuel : lookupChain sF x sF.fns.length c = lookupChain sF x (sF.fns.length + 1) c)
+    (hc : (fnOf sF c).parent.isSome = true ∨
+          ((fnOf sF c).parent = none ∧ (lookupUntilFn sF x false K = none → lookupUntilFn sF x false (fnOf sF c).closing = none) ∧ 0 < sF.fns.length)) :
+    lexLookupAt sF K f x = lexLookupAt sF K c x := by
+  unfold lexLookupAt
+  cases h1 : lookupUntilFn sF x false K with
+  | some r => rfl
+  | none =>
+    dsimp only
+    have hstep : lookupChain sF x (sF.fns.length + 1) f = lookupChain sF x sF.fns.length c := by
+      rw [lookupChain]; simp only [hpar, hcl, h1]
+    simp only [hpar, Option.isSome_some, if_true, hstep]
+    rcases hc with hc | ⟨hc1, hc2, hc3⟩
+    · simp only [hc, if_true, hfuel]
+    · simp only [hc1, Option.isSome_none, Bool.false_eq_true, if_false, hc2 h1]
+      cases hn : sF.fns.length with
+      | zero => omega
+      | succ n => simp only [lookupChain, hc1]
 
 end ZygoVerif.C16
